@@ -236,9 +236,9 @@ func ruleNodeLayer(c *Ctx) {
 			}
 		}
 		if len(missing) == 0 {
-			c.r.ok("R24", key, m.pos(cu.Decl.Pos()), fmt.Sprintf("all %d fields (embedded header included)", st.NumFields()), "C12", "C16")
+			c.r.ok("R24", key, m.pos(cu.Decl.Pos()), fmt.Sprintf("all %d fields (embedded header included)", st.NumFields()), "C12", "C16", "C11", "C01")
 		} else {
-			c.r.bad("R24", key, m.pos(cu.Decl.Pos()), "clear() leaves "+strings.Join(missing, ", ")+" as it was: a recycled node carries it into its next life", "C12", "C16")
+			c.r.bad("R24", key, m.pos(cu.Decl.Pos()), "clear() leaves "+strings.Join(missing, ", ")+" as it was: a recycled node carries it into its next life", "C12", "C16", "C11", "C01")
 		}
 	}
 	// pool New ↔ kind (from the model) and uses of the pool variable
